@@ -334,10 +334,10 @@ class Capture:
         orig = tad.Solver.solve_total_rewards
         cap = s
 
-        def wrapped(self):
+        def wrapped(self, *a, **k):
             cap.lists = [list(st.next_states) for st in self.state_list]
             cap.nodes = self.state_list
-            return orig(self)
+            return orig(self, *a, **k)
         tad.Solver.solve_total_rewards = wrapped
         try:
             sg = s.obj if getattr(s, 'obj', None) is not None else tad.StochasticGame(**copy.deepcopy(game), prune_states=prune)
